@@ -38,7 +38,9 @@ Relocated(R) == {n \in DOMAIN R.segs : R.segs[n].toff # 0}
 Overlapping(R) == \E m, n \in DOMAIN R.segs : m # n /\ DOMAIN R.segs[m].mem # {} /\ DOMAIN R.segs[n].mem # {}
                      /\ SegLo(R.segs[m]) + R.segs[m].toff < SegHi(R.segs[n]) + R.segs[n].toff /\ SegLo(R.segs[n]) + R.segs[n].toff < SegHi(R.segs[m]) + R.segs[m].toff
 
-SrcMapOf(R, lineOf) == [i \in 1..Len(R.srcmap) |-> [line |-> lineOf[R.srcmap[i].sid], lo |-> R.srcmap[i].lo, hi |-> R.srcmap[i].lo + R.srcmap[i].n]]
+(* entries of statements of the main file only (lineOf = 0 marks statements of imported files: they belong to other listings) *)
+SrcMapOf(R, lineOf) == LET m == SelectSeq(R.srcmap, LAMBDA e : lineOf[e.sid] # 0) IN
+                       [i \in 1..Len(m) |-> [line |-> lineOf[m[i].sid], lo |-> m[i].lo, hi |-> m[i].lo + m[i].n]]
 
 (* every emitted byte is covered by exactly one source-map entry (per segment) *)
 Partition(R) == \A n \in DOMAIN R.segs :
